@@ -31,6 +31,8 @@ def make_bam(path, contigs, reads):
                 a.set_tag('mp', r['mp'])
             if r.get('da') is not None:
                 a.set_tag('DA', r['da'])
+            if r.get('xm') is not None:
+                a.set_tag('XM', r['xm'])
             out.write(a)
     pysam.index(path)
 
@@ -85,7 +87,7 @@ def handler(p):
     import multiprocessing
     scratch = os.environ['SCMO_SCRATCH']
     sink = io.StringIO()
-    out = {'libs': [], 'histories': [], 'jobs': [], 'filters': [], 'merges': [], 'regions': []}
+    out = {'libs': [], 'histories': [], 'jobs': [], 'filters': [], 'merges': [], 'regions': [], 'meth': [], 'mmerges': []}
     real_mp = B.multiprocessing
     fake_mp = SimpleNamespace(Pool=FakePool)
 
@@ -194,9 +196,100 @@ def handler(p):
                 for s, v in row.items():
                     if v == v and v != 0:
                         cells.append([int(idx[1]), int(v)])
-            out['regions'].append({'cells': sorted(cells)})
+            entry = {'cells': sorted(cells)}
+            if rg.get('ext'):
+                # the sibling with the same pattern (alias = first index level, samples keyed (alias, sample))
+                try:
+                    regions2 = [('chr1', a, b) for a, b in rg['regions']]
+                    with contextlib.redirect_stdout(sink):
+                        df2 = B.get_binned_counts_prefixed({'grp': [path]}, rg['bin'], regions=regions2, n_threads=1)
+                    cells2 = []
+                    for idx, row in df2.iterrows():
+                        for s, v in row.items():
+                            if v == v and v != 0:
+                                cells2.append([int(idx[1]), int(v)])
+                    entry['prefixed'] = sorted(cells2)
+                except BaseException as e:
+                    entry['prefixed'] = err(e)
+            out['regions'].append(entry)
         except BaseException as e:
             out['regions'].append(err(e))
+    # ---- count_methylation_binned on the generate_commands tiling, merged by MethylationCountMatrix.update
+    def mcells(M):
+        cells = []
+        counts = getattr(M, 'counts', None)
+        if counts is None:
+            raise TypeError('MethylationCountMatrix has no counts')
+        for sample, locs in counts.items():
+            for loc, v in locs.items():
+                loc = tuple(loc)
+                strand = loc[3] if len(loc) > 3 else None
+                cells.append([sample, strand, loc[0], int(loc[1]), int(loc[2]), int(v[0]), int(v[1])])
+        return cells
+
+    def meth_one(path, run):
+        try:
+            from singlecellmultiomics.methylation import MethylationCountMatrix
+            kw = {'dyad_mode': bool(run['dyad']), 'stranded': bool(run['stranded'])}
+            with contextlib.redirect_stdout(sink):
+                if run['via'] == 'caller':
+                    from singlecellmultiomics.bamProcessing import bamToMethylationCalls as MC
+                    real = MC.multiprocessing
+                    if run.get('sched') is not None:
+                        FakePool.order = run['sched']
+                        MC.multiprocessing = fake_mp
+                    try:
+                        M, _rc = MC.get_methylation_count_matrix(path, bin_size=run['b'], bp_per_job=run['b'] * run['k'],
+                                                                 min_samples=0, min_variance=None, min_mapping_qual=run['min_mq'],
+                                                                 threads=run['threads'], count_reads=False, **kw)
+                    finally:
+                        MC.multiprocessing = real
+                        FakePool.order = None
+                    return {'cells': mcells(M)}
+                kwargs = dict(kw, min_samples=0, min_variance=None)
+                cmds = list(B.generate_commands(path, bin_size=run['b'], bins_per_job=run['k'], max_fragment_size=run['mfs'],
+                                                min_mq=run['min_mq'], key_tags=None, dedup=run['dedup'], kwargs=kwargs))
+                order = run['sched'] if run.get('sched') is not None else range(len(cmds))
+                M = MethylationCountMatrix()
+                for i in order:
+                    if 0 <= i < len(cmds):
+                        M.update(B.count_methylation_binned(cmds[i])[0])
+            return {'cells': mcells(M), 'jobs': [[c[3], c[4], c[5]] for c in cmds]}
+        except BaseException as e:
+            return err(e)
+
+    for n, lib in enumerate(p.get('meth', [])):
+        path = os.path.join(scratch, 'm%d.bam' % n)
+        try:
+            make_bam(path, lib['contigs'], lib['reads'])
+        except BaseException as e:
+            out['meth'].append({'error': err(e)['error']})
+            continue
+        out['meth'].append({'runs': [meth_one(path, run) for run in lib['runs']]})
+        for ext in ('', '.bai'):
+            try:
+                os.remove(path + ext)
+            except OSError:
+                pass
+
+    # ---- MethylationCountMatrix.update alone: prepared matrices, completion order = list order
+    for mats in p.get('mmerges', []):
+        try:
+            from singlecellmultiomics.methylation import MethylationCountMatrix
+            M = MethylationCountMatrix()
+            for mat in mats:
+                o = MethylationCountMatrix()
+                for s, k, cc, bs, be, u, v in mat:
+                    o[s, (k, cc, bs, be)][0] += u
+                    o[s, (k, cc, bs, be)][1] += v
+                M.update(o)
+            cells = []
+            for s, locs in M.counts.items():
+                for loc, v in locs.items():
+                    cells.append([s] + [int(x) for x in loc] + [int(v[0]), int(v[1])])
+            out['mmerges'].append(cells)
+        except BaseException as e:
+            out['mmerges'].append(err(e))
     return out
 
 
